@@ -209,7 +209,7 @@ def run(ctx):
     for name in ["Elastic", "Thermal", "MatSimu"]:
         lc.simulate_and_replay(ctx, name, ["SetMesh", "SaveIter", "SetIter", "Solve", "GetKCMF", "Rotate", "SetCoord", "SetParam"], num, 14, ctx.seed + 4, label="restore")
     lc.simulate_and_replay(ctx, "Elastic", ["SetParam", "SetRho", "Translate", "SetCoord", "SetMesh", "GetKCMF", "Solve", "SetBc"], num // 2, 10, ctx.seed + 3, sims=("s1", "s2"), label="shared")
-    for name in ["Beam", "BeamTimo", "Elastic3D", "WeakForms", "HyperElastic", "PhaseField", "ElasticField", "InElastic"]:
+    for name in ["Beam", "BeamTimo", "Elastic3D", "WeakForms", "HyperElastic", "PhaseField", "ElasticField", "ElasticSmallUnits", "InElastic"]:
         lc.simulate_and_replay(ctx, name, lc.ALL_ACTS, num // 3, 14, ctx.seed + 5, label="all")
         lc.simulate_and_replay(ctx, name, lc.CACHE_ACTS, num // 3, 12, ctx.seed + 6, label="cache")
     beam_mesh_replacement(ctx)
